@@ -886,8 +886,13 @@ func (a *Agent) DownloadAdd(FileID int, FilePath string, FileSize int64) error {
 		DemonDownload    = DemonDownloadDir + "/" + strings.Join(FileSplit[:len(FileSplit)-1], "/")
 	)
 
+	/* two requests of one agent may be handled at the same time (a repeated request):
+	 * the transfer table is looked at and changed in one step */
+	a.DownloadsMtx.Lock()
+	defer a.DownloadsMtx.Unlock()
+
 	/* a file id names one running transfer */
-	if a.DownloadGet(FileID) != nil {
+	if a.downloadGet(FileID) != nil {
 		logger.Error(fmt.Sprintf("Download file id %x is already in use. abort", FileID))
 		return errors.New(fmt.Sprintf("Download file id %x is already in use. abort", FileID))
 	}
@@ -932,6 +937,9 @@ func (a *Agent) DownloadAdd(FileID int, FilePath string, FileSize int64) error {
 }
 
 func (a *Agent) DownloadWrite(FileID int, data []byte) error {
+	a.DownloadsMtx.Lock()
+	defer a.DownloadsMtx.Unlock()
+
 	for i := range a.Downloads {
 		if a.Downloads[i].FileID == FileID {
 			_, err := a.Downloads[i].File.Write(data)
@@ -955,6 +963,9 @@ func (a *Agent) DownloadWrite(FileID int, data []byte) error {
 }
 
 func (a *Agent) DownloadClose(FileID int) {
+	a.DownloadsMtx.Lock()
+	defer a.DownloadsMtx.Unlock()
+
 	for i := range a.Downloads {
 		if a.Downloads[i].FileID == FileID {
 			err := a.Downloads[i].File.Close()
@@ -969,6 +980,22 @@ func (a *Agent) DownloadClose(FileID int) {
 }
 
 func (a *Agent) DownloadGet(FileID int) *Download {
+	a.DownloadsMtx.Lock()
+	defer a.DownloadsMtx.Unlock()
+
+	return a.downloadGet(FileID)
+}
+
+// DownloadCount: number of running transfers
+func (a *Agent) DownloadCount() int {
+	a.DownloadsMtx.Lock()
+	defer a.DownloadsMtx.Unlock()
+
+	return len(a.Downloads)
+}
+
+// downloadGet: DownloadGet for callers that hold DownloadsMtx
+func (a *Agent) downloadGet(FileID int) *Download {
 	for _, download := range a.Downloads {
 		if download.FileID == FileID {
 			return download
